@@ -385,6 +385,24 @@ pub fn dump_fn<'tcx>(cx: &mut Ctx<'tcx>, ldid: LocalDefId) -> J {
         let parent = tcx.typeck_root_def_id(did);
         o.push(("root", J::s(def_path(tcx, parent))));
         o.push(("parent", J::s(def_path(tcx, tcx.parent(did)))));
+        let mut caps = Vec::new();
+        for cp in tcx.closure_captures(ldid).iter() {
+            let by = match cp.info.capture_kind {
+                ty::UpvarCapture::ByValue => "value".to_string(),
+                ty::UpvarCapture::ByRef(bk) => format!("ref:{:?}", bk),
+                #[allow(unreachable_patterns)]
+                _ => "use".to_string(),
+            };
+            let t = cp.place.ty();
+            let tenv = TypingEnv::post_analysis(tcx, did);
+            caps.push(J::Obj(vec![
+                ("name", J::s(cp.to_symbol().to_string())),
+                ("ty", J::s(format!("{}", t))),
+                ("by", J::s(by)),
+                ("freeze", J::Bool(t.is_freeze(tcx, tenv))),
+            ]));
+        }
+        o.push(("captures", J::Arr(caps)));
     } else {
         let vis = tcx.visibility(did);
         o.push(("vis", J::s(if vis.is_public() { "pub".to_string() } else { format!("{:?}", vis) })));
